@@ -112,6 +112,10 @@ def monitorC02 (cx : Ctx) : List Finding := Id.run do
   for s in cx.sc.sessions do
     let lockstep := s.nat "mp" 8 == 0
     let mut lastSaved : List (Int × Nat) := []      -- frame → checksum of the newest save
+    -- saved frames whose state still belongs to the current timeline (`Chk`'s `valid`): an
+    -- AdvanceFrame executed at frame g re-writes frame g, so every state saved for a later
+    -- frame is from then on a state of an abandoned timeline
+    let mut validSaved : List Int := []
     let mut savedZero := false
     let mut prevCur : Int := if s.kind == "spec" then -1 else 0
     for c in cx.sc.calls do
@@ -134,6 +138,7 @@ def monitorC02 (cx : Ctx) : List Finding := Id.run do
               if g != f then
                 out := mkF cx "C02" "save-frame" s.sid c.lineNo s!"SaveGameState names frame {f} but the game is at frame {g}" :: out
               lastSaved := (f, cs) :: lastSaved.filter (·.1 != f)
+              validSaved := f :: validSaved.filter (· != f)
               if f == 0 then savedZero := true
               gameFrame := some g
             | Req.load f, some (GTok.l _ lf cs) =>
@@ -150,6 +155,9 @@ def monitorC02 (cx : Ctx) : List Finding := Id.run do
                     out := mkF cx "C02" "load-cell" s.sid c.lineNo s!"LoadGameState {f}: the cell does not hold the newest state saved for that frame" :: out
                 | none =>
                   out := mkF cx "C02" "load-cell" s.sid c.lineNo s!"LoadGameState {f}: frame was never saved" :: out
+                if lastSaved.any (·.1 == f) && !validSaved.contains f then
+                  out := mkF cx "C02" "load-stale" s.sid c.lineNo
+                    s!"LoadGameState {f}: the state saved for frame {f} belongs to an abandoned timeline (an earlier frame was re-simulated after that save and frame {f} was not saved again)" :: out
               | _, _ =>
                 out := mkF cx "C02" "load-cell" s.sid c.lineNo s!"LoadGameState {f}: the cell is empty" :: out
               gameFrame := some f
@@ -160,6 +168,7 @@ def monitorC02 (cx : Ctx) : List Finding := Id.run do
               | some gf => if gf != g then
                   out := mkF cx "C02" "gapless" s.sid c.lineNo s!"AdvanceFrame executed at game frame {g}, expected {gf}" :: out
               | none => pure ()
+              validSaved := validSaved.filter (· ≤ g)
               gameFrame := some (g + 1)
             | _, _ =>
               out := mkF cx "C02" "shape" s.sid c.lineNo "request list and game log do not line up" :: out
@@ -286,7 +295,9 @@ def monitorPanics (cx : Ctx) (prop : String) : List Finding :=
 def runMonitor (prop : String) (cx : Ctx) : List Finding :=
   match prop with
   | "C01" => monitorC01 cx ++ (if cx.anyDisconnect then [] else monitorPanics cx "C01")
-  | "C02" => monitorC02 cx
+  | "C02" => monitorC02 cx ++
+      -- a call that dies in the library's own assertions produced no executable list at all
+      (if cx.anyDisconnect then [] else monitorPanics cx "C02")
   | "C03" => monitorC03 cx
   | "C04" => monitorC04 cx ++
       -- the library's own window assertions firing is the same violation, seen from inside
